@@ -21,7 +21,7 @@ from .world import World, Session, Running
 class Rig:
     def __init__(self, chooser=None, backend="memory", delay=0.0, delay_ops=None, tree=None, users=None,
                  n_sessions=1, window=65536, server_kwargs=None, spy=None, mtime=None, advance=None,
-                 base="/", epoch0=None, max_iterations=200000, host="127.0.0.1", via_run=False):
+                 base="/", epoch0=None, max_iterations=200000, host="127.0.0.1", via_run=False, start_kwargs=None):
         kw = {} if epoch0 is None else {"epoch0": epoch0}
         self.world = World(chooser=chooser, window=window, max_iterations=max_iterations, **kw)
         a = self.world.aioftp
@@ -64,7 +64,7 @@ class Rig:
             self.world.settle(0)
             self.world.loop.chooser.active = act
         else:
-            self.world.start_server(self.server, host=host)
+            self.world.start_server(self.server, host=host, **(start_kwargs or {}))
         self.host = host
         self.sessions = [Session(self.world, name=f"p{i}", advance=advance, host=host) for i in range(n_sessions)]
         self.advance = advance
@@ -89,6 +89,10 @@ class Rig:
                 self._track_passive(s, late)
         if e == "@connect":
             s.ctl = s.peer.connect(s.port, s.host)
+        elif e.startswith("@connect-as "):
+            # from the very address (host, port) session j's control connection has (had)
+            other = self.sessions[int(e.split(" ")[1])]
+            s.ctl = s.peer.connect(s.port, s.host, source_port=other.ctl.t.get_extra_info("sockname")[1])
         elif e == "@data":
             if s.pasv_port is None:
                 return None
